@@ -2,6 +2,7 @@ import Driver.Hist
 import Driver.Contract
 import Driver.FragJudge
 import Driver.StrictJudge
+import Driver.Numeric
 /- Driver.Dispatch — property id → judge. -/
 namespace Driver
 open Muxide Muxide.Spec
@@ -122,6 +123,7 @@ def judge (prop kind id rest impl : String) : Verdict :=
   | "C13" => judgeC13 id rest impl
   | "C10" => judgeFrag id rest impl projC10 oracleC10
   | "C11" => judgeFrag id rest impl projC11 oracleC11
+  | "C16" => judgeC16 kind id rest impl
   | "C19" => judgeC19 kind id rest impl
   | "C07" => judgeC07 kind id rest impl
   | "C04" => judgeC04 id rest impl
